@@ -1091,20 +1091,31 @@ def o_graph_rot(case, T):
 @st.composite
 def s_graph_other(draw):
     la, lb = draw(st.sampled_from(LABEL_PAIRS))
-    place = draw(st.sampled_from(["overlap", "overlap", "overlap", "overlap", "near", "gap", "gap", "far"]))
+    place = draw(st.sampled_from(["overlap", "overlap", "overlap", "overlap", "near", "gap", "gap", "far", "bbox_corner", "bbox_corner"]))
     # far apart (>= 100 px) only fits into the common valid area when the rasters are small
     dst = draw(placed_boxes(la, lb, maxt=5, max_side=24, extents=(2e3, 2e4) if place == "far" else (2e3, 2e4, 1e5, 2.5e5)))
+    if place == "bbox_corner":
+        # a destination turned by 25..65 degrees (mod 90) leaves the corners of its bounding box empty
+        ang = draw(st.sampled_from([45.0, 45.0, 30.0, 60.0, 135.0, 225.0, 40.0]))
+        c_, s_ = math.cos(math.radians(ang)), math.sin(math.radians(ang))
+        sgy_ = draw(st.sampled_from([-1.0, -1.0, 1.0]))
+        dst["lin"], dst["klass"] = [c_, -s_ * sgy_, s_, c_ * sgy_], ("mirror_y+rot" if sgy_ > 0 else "rot")
     ny, nx = dst["shape"]
     sshape = draw(shapes(max_side=24))
     sny, snx = sshape
     # source raster extent relative to the destination's, capped at 300 km so that it stays inside the valid area
     ext_d = dst["px"] * max(ny, nx)
-    ext_s = min(3e5, ext_d * draw(st.sampled_from([1.0, 1.0, 0.5, 2.0, 1 / 3.0, 1.7])))
+    ext_s = min(3e5, ext_d * draw(st.sampled_from([0.1, 0.2, 0.3] if place == "bbox_corner" else [1.0, 1.0, 0.5, 2.0, 1 / 3.0, 1.7])))
     px_s = min(ext_s / max(sny, snx), MAX_PX_M)
     ratio = px_s / dst["px"]  # src pixel size in dst pixels
     lin, klass = draw(lin_parts())
     r = 0.5 * ratio * math.hypot(snx, sny) * 1.3
-    if place == "overlap":
+    if place == "bbox_corner":
+        # the source sits in a corner of the destination's axis-aligned bounding box (see build_pair_other): for a
+        # rotated destination that corner is empty - footprints disjoint, bounding boxes (also in lon/lat) overlapping
+        ox, oy = draw(st.sampled_from([[1, 1], [1, -1], [-1, 1], [-1, -1]]))
+        ox, oy = ox * draw(st.sampled_from([0.8, 0.9, 0.97])), oy * draw(st.sampled_from([0.8, 0.9, 0.97]))
+    elif place == "overlap":
         ox = draw(st.integers(-10, 10)) / 16 * nx
         oy = draw(st.integers(-10, 10)) / 16 * ny
     else:
@@ -1130,7 +1141,14 @@ def build_pair_other(case):
     la, lb = d["crs"]["label"], s["crs"]["label"]
     A = mk_affine(dgb["affine"])
     ny, nx = d["shape"]
-    wx, wy = A * (nx / 2 + s["off"][0], ny / 2 + s["off"][1])
+    if case.get("place") == "bbox_corner":
+        cs = [A * p for p in ((0, 0), (nx, 0), (nx, ny), (0, ny))]
+        x0, x1 = min(c[0] for c in cs), max(c[0] for c in cs)
+        y0, y1 = min(c[1] for c in cs), max(c[1] for c in cs)
+        wx = (x0 + x1) / 2 + s["off"][0] * (x1 - x0) / 2
+        wy = (y0 + y1) / 2 + s["off"][1] * (y1 - y0) / 2
+    else:
+        wx, wy = A * (nx / 2 + s["off"][0], ny / 2 + s["off"][1])
     lon, lat = _tr(la, "4326").transform(wx, wy)
     cb = _common_box(la, lb)
     if not (math.isfinite(lon) and math.isfinite(lat)):
